@@ -1,11 +1,13 @@
+\* measured: 950,360 distinct / 18,612,977 generated states (MaxSends = 2: 135,788 / 1,644,698); MaxSrc = 5 does not finish in 50 min
 SPECIFICATION Spec
 CONSTANTS
   Kinds = {"W", "F", "O"}
   Lose = {FALSE, TRUE}
   MaxSrc = 4
   MaxCopies = 2
-  MaxSends = 2
+  MaxSends = 3
   MaxTgtW = 1
+  MaxDeliver = 3
 VIEW View
 INVARIANTS TypeOK C39_AtMostOnce C39_NoLossAfterSwitch C39_FenceClosesSource C39_Recoverable
 PROPERTIES C39_ReplayNoop C39_NonOwnerRefuses
